@@ -240,6 +240,62 @@ def _port_tie() -> int:
     return port
 
 
+def _start_order() -> tuple[list, list]:
+    """`QMI_Context.start()` as the sequence of message-router calls on its normal path (source order, `except` handlers
+    left out), each classified: 2 = starts the responder, 1 = a `MessageRouter` method that assigns a field the responder
+    reports at answer time, 0 = neither.  Returns (codes, names)."""
+    ct = ast.parse((core.REPO / "qmi/core/context.py").read_text())
+    mt = ast.parse((core.REPO / "qmi/core/messaging.py").read_text())
+    start = _find_def(ct, ["QMI_Context", "start"])
+    calls = []
+
+    def visit(stmts):
+        for st in stmts:
+            if isinstance(st, ast.Try):
+                visit(st.body)
+                visit(st.orelse)
+                visit(st.finalbody)
+                continue
+            if isinstance(st, (ast.FunctionDef, ast.ClassDef, ast.AsyncFunctionDef)):
+                continue
+            own = [c for c in ast.walk(st) if isinstance(c, ast.Call) and isinstance(c.func, ast.Attribute)
+                   and ast.unparse(c.func.value) == "self._message_router"]
+            if isinstance(st, (ast.If, ast.For, ast.While, ast.With)):
+                hdr = st.test if isinstance(st, (ast.If, ast.While)) else (st.iter if isinstance(st, ast.For) else None)
+                if hdr is not None:
+                    calls.extend(c.func.attr for c in ast.walk(hdr) if c in own)
+                visit(st.body)
+                visit(getattr(st, "orelse", []))
+            else:
+                calls.extend(c.func.attr for c in sorted(own, key=lambda c: (c.lineno, c.col_offset)))
+    visit(start.body)
+    resp = _find_def(mt, ["_UdpResponder", "_handle_context_info_request_packet"])
+    reported = sorted({a.attr for a in ast.walk(resp) if isinstance(a, ast.Attribute) and ast.unparse(a.value) == "self._message_router"})
+    if not reported or "tcp_server_port" not in reported:
+        raise ValueError(f"fields the responder reports not understood: {reported}")
+    router = _find_def(mt, ["MessageRouter"])
+    writers = set()
+    for fn in router.body:
+        if not isinstance(fn, ast.FunctionDef) or fn.name == "__init__":
+            continue
+        for n in ast.walk(fn):
+            tg = []
+            if isinstance(n, ast.Assign):
+                tg = n.targets
+            elif isinstance(n, (ast.AugAssign, ast.AnnAssign)):
+                tg = [n.target]
+            for t in tg:
+                for a in ast.walk(t):
+                    if isinstance(a, ast.Attribute) and ast.unparse(a.value) == "self" and a.attr in reported:
+                        writers.add(fn.name)
+    methods = {fn.name for fn in router.body if isinstance(fn, ast.FunctionDef)}
+    unknown = [c for c in calls if c not in methods]
+    if unknown or calls.count("start_udp_responder") != 1 or "start" not in calls:
+        raise ValueError(f"QMI_Context.start(): router calls {calls} not understood (unknown: {unknown})")
+    codes = [2 if c == "start_udp_responder" else (1 if c in writers else 0) for c in calls]
+    return codes, calls
+
+
 def _lenient(fn, default):
     """the correspondence / search must still run (and look for a failing input) when a source tie no longer parses"""
     try:
@@ -292,6 +348,7 @@ def read_layout(strict: bool = False) -> tuple[Layout, dict]:
         maxObjectNameLen=_object_name_rule() if strict else _lenient(_object_name_rule, 63),
         responderPort=_port_tie() if strict else _lenient(_port_tie, 35999),
         defaultTimeoutTicks=default_timeout_ticks() if strict else _lenient(default_timeout_ticks, 103),
+        startOrder=_start_order() if strict else _lenient(_start_order, ([0, 1, 2], ["start", "start_tcp_server", "start_udp_responder"])),
     )
     for v in d["enumTags"]:
         if not isinstance(v, int) or v < 0:
@@ -318,6 +375,9 @@ def render_gen(lay: Layout, tables: dict) -> str:
     L.append(f"def responderPort : Nat := {lay.responderPort}")
     L.append("/-- default `timeout` of `ping_qmi_contexts` in clock ticks of 1/1024 s, rounded up (first tick at which the loop stops) -/")
     L.append(f"def defaultTimeoutTicks : Nat := {lay.defaultTimeoutTicks}")
+    L.append("/-- router calls of `QMI_Context.start()` in source order: " + ", ".join(lay.startOrder[1]) +
+             " — 2 starts the responder, 1 assigns a field the responder reports, 0 neither -/")
+    L.append("def startCalls : List Nat := [" + ", ".join(str(c) for c in lay.startOrder[0]) + "]")
     L.append("")
     L.append("/-! field tables as read (name, offset, size) — for the record -/")
     for name, tab in tables.items():
@@ -1169,6 +1229,130 @@ def sys_timed(lay: Layout, dflt: int) -> list:
     return out
 
 
+# ---- requests arriving while a context starts and stops (real QMI_Context, deterministic scheduler, simulated network) ----
+# life = {"name","wg","tcp": 0|None|port, "mode":"hooks"|"race", "seed": int}
+
+def run_lifecycle_impl(lay: Layout, life: dict):
+    import os as _os
+    import socket as _rs
+    from harness import simnet as S
+    from harness.simworld import run_scenario
+    ts = struct.pack("<d", 1.7e9)
+
+    def body(w):
+        import qmi.core.context as C
+        from qmi.core.config_defs import CfgQmi, CfgContext
+        cfg = CfgQmi(workgroup=life["wg"], contexts={life["name"]: CfgContext(tcp_server_port=life["tcp"])})
+        ctx = w.context(life["name"], start=False, config=cfg)
+        router = ctx._message_router
+        port = C.QMI_Context.DEFAULT_UDP_RESPONDER_PORT
+        cli = S.SimSocket(type=_rs.SOCK_DGRAM)
+        cli.bind(("", 0))
+        events, counter = [], [0]
+
+        def pending():
+            return any(sk.dgrams for sk in w.net.udp.get(port, []) if sk is not cli)
+
+        def probe(label, wait=True):
+            counter[0] += 1
+            rid = 7000 + counter[0]
+            cli.sendto(o_request(lay, rid, ts, b"*", b"*"), ("<broadcast>", port))
+            if wait:
+                w.sched.yield_point("c18.probe", blocked_on=lambda: not pending(), timeout=0.5)
+                unread = pending()
+                for sk in w.net.udp.get(port, []):
+                    if sk is not cli:
+                        sk.dgrams.clear()
+            else:
+                w.sched.yield_point("c18.ping")
+                unread = False
+            events.append({"label": label, "rid": rid, "unread": unread, "listening": sorted(w.net.listeners),
+                           "router_port": router.tcp_server_port})
+
+        if life["mode"] == "hooks":
+            for meth in ("start", "start_tcp_server", "start_udp_responder", "stop"):
+                orig = getattr(router, meth)
+
+                def wrapped(*a, _o=orig, _m=meth, **k):
+                    probe("before:" + _m)
+                    try:
+                        return _o(*a, **k)
+                    finally:
+                        probe("after:" + _m)
+                setattr(router, meth, wrapped)
+            ctx.start()
+            final = {"port": router.tcp_server_port, "listening": sorted(w.net.listeners)}
+            probe("running")
+            ctx.stop()
+            probe("stopped")
+        else:
+            done = [False]
+
+            def pinger():
+                for i in range(life.get("pings", 40)):
+                    if done[0]:
+                        break
+                    probe(f"ping{i}", wait=False)
+            th = w.spawn(pinger, "pinger")
+            ctx.start()
+            final = {"port": router.tcp_server_port, "listening": sorted(w.net.listeners)}
+            probe("running")
+            ctx.stop()
+            done[0] = True
+            w.sched.yield_point("c18.join", blocked_on=lambda: not th.is_alive() if hasattr(th, "is_alive") else True, timeout=1.0)
+        answers = [(hx(b), a) for b, a in cli.dgrams]
+        return {"events": events, "final": final, "answers": answers, "pid": _os.getpid()}
+
+    out = run_scenario(f"c18:{life['seed']}", body, cleanup=True, max_steps=60000)
+    info = {"deadlock": out.deadlock, "budget": out.budget, "error": repr(out.error) if out.error else None,
+            "loop_exceptions": [type(e).__name__ for e in (out.net.loop_exceptions if out.net else [])], "value": out.value}
+    return info
+
+
+def oracle_lifecycle(lay: Layout, life: dict, info):
+    """an answer given at any moment of the context's life carries the context's final name, workgroup, pid and the TCP port
+    it actually listens on; once start() has returned a matching request is answered"""
+    if info["deadlock"] or info["budget"] or info["error"] or info["value"] is None:
+        return ("lifecycle:scenario-did-not-complete", f"{info['deadlock'] or info['error'] or 'step budget'}", 0)
+    v = info["value"]
+    by_rid = {e["rid"]: e for e in v["events"]}
+    final_port = v["final"]["port"]
+    seen = set()
+    for hexdata, _a in v["answers"]:
+        b = unhx(hexdata)
+        if len(b) != lay.resp_size:
+            return ("lifecycle:answer-malformed", hexdata[:80], 0)
+        r = o_split(lay.resp_sizes, b)
+        ev = by_rid.get(int.from_bytes(r[4], "little"))
+        if ev is None:
+            return ("lifecycle:answer-to-no-request", hexdata[:80], 0)
+        seen.add(ev["rid"])
+        where = ev["label"] if not ev["label"].startswith("ping") else "concurrent-request"
+        if sint(r[9]) != final_port or (final_port != 0 and final_port not in v["final"]["listening"]):
+            return (f"lifecycle:answer-carries-tcp-port-the-context-does-not-listen-on:{where}",
+                    f"request at '{ev['label']}' answered with port {sint(r[9])}; the context listens on {final_port} "
+                    f"(router field at that moment: {ev['router_port']})", 0)
+        if cval(r[7]) != life["name"].encode() or cval(r[8]) != life["wg"].encode() or sint(r[6]) != v["pid"]:
+            return (f"lifecycle:answer-carries-wrong-identity:{where}", f"{r[7]!r} {r[8]!r} pid {sint(r[6])}", 0)
+    running = [e for e in v["events"] if e["label"] == "running"]
+    if not running or running[0]["rid"] not in seen:
+        return ("lifecycle:no-answer-from-a-started-context", "", 0)
+    stopped = [e for e in v["events"] if e["label"] in ("stopped", "after:stop")]
+    if any(e["rid"] in seen for e in stopped):
+        return ("lifecycle:answer-from-a-stopped-context", "", 0)
+    return None
+
+
+def lifecycle_cases(rng, n_race: int) -> list:
+    out = []
+    for name, wg, tcp in (("ctxA", "grp", 0), ("node-1", "é" * 32, 5151), ("n", "default", None), ("A" * 63, "w" * 64, 0)):
+        out.append({"name": name, "wg": wg, "tcp": tcp, "mode": "hooks", "seed": 0})
+    for i in range(n_race):
+        out.append({"name": "ctx%d" % i, "wg": rng.choice(["grp", "default", "lab_7"]), "tcp": rng.choice([0, 0, 6000 + i, None]),
+                    "mode": "race", "seed": rng.randrange(10 ** 9), "pings": rng.choice([10, 40, 80])})
+    return out
+
+
 def oracle_client(lay: Layout, c: dict, info) -> tuple | None:
     """`reports only answers to its own request and never the asking context itself` (+ what it asks is what it was told to)"""
     import fnmatch
@@ -1741,6 +1925,9 @@ class C18(Prop):
         "clock stand in; the receive loop of `ping_qmi_contexts` itself is modelled as `pingLoop` over clock readings and diffed turn by "
         "turn, incl. the deadline tick); that the clock advances between two loop turns is an assumption of `ping_turns_bounded`; "
         "`random.randint`, `time.time`, `os.getpid`, `os._exit` are inputs/effects of the model",
+        "context start/stop: the order of the router calls of `QMI_Context.start()` is an obligation regenerated from the AST "
+        "(`gen_start_order_ok`); the threads, the socket manager and the event loop behind it are exercised (real code under "
+        "harness/detsched + harness/simnet, requests at every router call and concurrently), not modelled",
         "which exceptions can leave `_handle_read`: proved for the model (`escape_classes`), tied to the source by the translator "
         "(try/except structure of the responder methods, `raise` statements of `unpack_qmi_udp_packet`, exception hierarchy) and by an "
         "oracle clause that flags any other class on every run",
@@ -1924,6 +2111,11 @@ class C18(Prop):
         self._flush(res, tb, "Discovery.pingLoop vs ping_qmi_contexts")
         ctx.log("collection-window runs done")
 
+        # (d3) requests arriving while a real context starts and stops (deterministic scheduler + simulated network)
+        for life in lifecycle_cases(rng, ctx.scale(80, 800)):
+            self._do_lifecycle(lay, res, life)
+        ctx.log("context life-cycle runs done")
+
         # (e) which contexts can exist: QMI_Context.__init__ against Discovery.admitContext, and "created => reportable"
         self._admission(ctx, lay, res)
 
@@ -1963,6 +2155,22 @@ class C18(Prop):
             c2 = self._shrink_client(lay, c, v[0])
             res.failures.append(Failure(v[0], f"discover_peer_contexts(self={c2['self']!r}, filters={c2['wgf']!r},{c2['cnf']!r}): {v[0]} — {v[1]}",
                                         {"kind": "client", "client": c2}))
+
+    def _do_lifecycle(self, lay, res, life):
+        info = run_lifecycle_impl(lay, life)
+        res.note_case(("life", life["name"], life["wg"], life["tcp"], life["mode"], life["seed"]))
+        res.count("lifecycle_" + life["mode"])
+        if info["value"]:
+            res.count("lifecycle_requests", len(info["value"]["events"]))
+            res.count("lifecycle_answers", len(info["value"]["answers"]))
+            for e in info["value"]["events"]:
+                if not e["label"].startswith("ping"):
+                    res.count("lifecycle_point_" + e["label"])
+        v = oracle_lifecycle(lay, life, info)
+        if v and sum(1 for f in res.failures if f.signature == v[0]) < 2:
+            res.failures.append(Failure(v[0], f"QMI_Context({life['name']!r}, workgroup={life['wg']!r}, tcp_server_port={life['tcp']}) "
+                                              f"[{life['mode']}, seed {life['seed']}]: {v[0]} — {v[1]}", {"kind": "life", "life": life}))
+        return v
 
     def _do_timed(self, lay, res, c, tb):
         lines, outs, info = run_timed_impl(lay, c)
@@ -2076,6 +2284,9 @@ class C18(Prop):
                 res.note_case(("re", repr(c)[:200]))
                 if v:
                     res.failures.append(Failure(v[0], f"{v[0]} — {v[1]}", {"kind": "client", "client": c["client"]}))
+            elif c.get("kind") == "life":
+                self._do_lifecycle(lay, res, c["life"])
+                continue
             elif c.get("kind") == "timed":
                 v = oracle_timed(lay, c["timed"], run_timed_impl(lay, c["timed"])[2])
                 res.note_case(("re", repr(c)[:200]))
@@ -2099,6 +2310,10 @@ class C18(Prop):
         if res.failures:
             return res
         # systematic sweeps on the implementation alone
+        for life in lifecycle_cases(rng, 150):
+            self._do_lifecycle(lay, res, life)
+        if res.failures:
+            return res
         self._admission(ctx, lay, res, n=4000)
         res.broken = []
         if res.failures:
@@ -2150,7 +2365,9 @@ class C18(Prop):
 
     def replay(self, ctx: Ctx, rp: dict):
         lay, _ = read_layout()
-        if rp.get("kind") == "timed":
+        if rp.get("kind") == "life":
+            v = oracle_lifecycle(lay, rp["life"], run_lifecycle_impl(lay, rp["life"]))
+        elif rp.get("kind") == "timed":
             v = oracle_timed(lay, rp["timed"], run_timed_impl(lay, rp["timed"])[2])
         elif rp.get("kind") == "admit":
             v = oracle_admit(lay, rp["name"], rp["wg"], admit_impl(rp["name"], rp["wg"]))
